@@ -303,7 +303,10 @@ class BaseClient:
         return result.event
 
     def trigger_event(self, event: events.BaseEvent):
-        for callback in self.callbacks:
+        for callback in list(self.callbacks):
+            # a callback may remove itself or others while the event is dispatched
+            if callback not in self.callbacks:
+                continue
             if callback.accepts_event(event):
                 try:
                     if asyncio.iscoroutinefunction(callback.callback):
